@@ -84,19 +84,41 @@ class Rng:
 
 
 class Model:
-    """client of the Lean driver"""
+    """client of the Lean driver: a small pool of driver processes (the driver is stateless between
+    requests), so that one expensive request does not hold up every scenario thread"""
+
+    POOL = 6
 
     def __init__(self):
-        self.p = subprocess.Popen([MODEL], stdin=subprocess.PIPE, stdout=subprocess.PIPE, text=True, bufsize=1)
-        self.lock = threading.Lock()
+        self.procs = [subprocess.Popen([MODEL], stdin=subprocess.PIPE, stdout=subprocess.PIPE, text=True, bufsize=1)
+                      for _ in range(self.POOL)]
+        self.locks = [threading.Lock() for _ in self.procs]
+        self.count_lock = threading.Lock()
         self.requests = 0
+        self.next = 0
 
     def ask(self, req):
-        with self.lock:
-            self.p.stdin.write(json.dumps(req) + "\n")
-            self.p.stdin.flush()
-            line = self.p.stdout.readline()
+        with self.count_lock:
             self.requests += 1
+            start = self.next
+            self.next = (self.next + 1) % len(self.procs)
+        # the first idle driver, else wait for the one whose turn it is
+        idx = None
+        for k in range(len(self.procs)):
+            i = (start + k) % len(self.procs)
+            if self.locks[i].acquire(blocking=False):
+                idx = i
+                break
+        if idx is None:
+            idx = start
+            self.locks[idx].acquire()
+        try:
+            p = self.procs[idx]
+            p.stdin.write(json.dumps(req) + "\n")
+            p.stdin.flush()
+            line = p.stdout.readline()
+        finally:
+            self.locks[idx].release()
         if not line:
             raise RuntimeError("model driver died on %s" % json.dumps(req)[:400])
         resp = json.loads(line)
@@ -105,11 +127,12 @@ class Model:
         return resp
 
     def close(self):
-        try:
-            self.p.kill()
-            self.p.wait()
-        except OSError:
-            pass
+        for p in self.procs:
+            try:
+                p.kill()
+                p.wait()
+            except OSError:
+                pass
 
 
 _scratch_root = None
